@@ -68,7 +68,7 @@ def fail(report, clause, trigger, case, impl=None, detail=""):
 def translate():
     from translator import registry
 
-    return registry.generate("Confidence", "KernelsConf")
+    return registry.generate("Confidence", "KernelsConf", "KernelsRegul")
 
 
 # ------------------------------------------------------------------------------------------------
@@ -949,9 +949,49 @@ def kernel_cross_check(ctx, report, status):
                                            f"real={[([float(y) for y in x] if isinstance(x, list) else float(x)) for x in want[name]]} reading={res} {[str(v) for v in (vals or [])]}")
 
 
+def regul_cross_check(ctx, report, status):
+    """The REAL compiled `create_connected_graph(border_left, border_right, 1)` (depth 1: the aggregated graph is the connection
+    matrix with the diagonal set) against the translator's exact reading of the connection scan (`gen_kernels_regul.evaluate`
+    on the tree `Generated/KernelsRegul.lean` is printed from) on random segment lists: row-major as `np.argwhere` lists them,
+    and arbitrary ones (the equality theorem holds for every list).  A mismatch -> `status.problem("translator", …)`."""
+    import random
+
+    try:
+        from translator import gen_kernels_regul
+        x = gen_kernels_regul.extract()
+    except Exception:  # already reported by build_and_audit (translate())  # pylint: disable=broad-except
+        return
+    from pandora import interval_tools
+
+    report.translator_checks += 1
+    rng = random.Random(ctx.seed * 7919 + 12)
+    problems = 0
+    for it in range(ctx.n(150, 1500)):
+        n = rng.choice([0, 1, 2, 3, 4, 5, 6, 8])
+        segs = []
+        for _ in range(n):
+            r, c0 = rng.randint(0, 3), rng.randint(0, 6)
+            segs.append((r, c0, c0 + rng.randint(0, 3)))
+        if it % 3:
+            segs.sort()
+        bl = [[r, c0] for r, c0, _ in segs]
+        br = [[r, c1] for r, _, c1 in segs]
+        real = interval_tools.create_connected_graph(np.array(bl, dtype=np.int64).reshape((n, 2)), np.array(br, dtype=np.int64).reshape((n, 2)), 1)
+        want = gen_kernels_regul.evaluate(x, bl, br)
+        for a in range(n):
+            want[a][a] = True
+        report.count("regul_translation_calls")
+        if [[bool(v) for v in row] for row in real.tolist()] != want:
+            problems += 1
+            if problems <= 3:
+                status.problem("translator", f"translated connection scan of create_connected_graph evaluates differently from the real function on "
+                               f"border_left={bl} border_right={br}", f"real={real.astype(int).tolist()} reading={[[int(v) for v in r] for r in want]}")
+
+
 def run(ctx, report, status):
     translator_cross_check(report, status)
     kernel_cross_check(ctx, report, status)
+    regul_cross_check(ctx, report, status)
     report.rule = (
         "kernels: random 1-5 x 1-7 x 1-9 cost volumes (integer / quarter / few-valued / ramp costs, global range a power of two, "
         "NaN holes, all-NaN pixels, missing planes, full ties), min and max measures, dyadic eta grids and thresholds -> exact "
